@@ -677,3 +677,27 @@ async fn f132(cache_indexes: bool) {
     }
     assert_eq!(short, 0, "F132: {short}/200 polls issued right after an acknowledged (wait) save did not return the saved message");
 }
+
+/// F230 — C14 `[C14.earliest]`, C02 `[C02.first-retained]`. "a poll that reaches below the earliest retained offset starts from the earliest message still available".
+#[tokio::test]
+async fn f230_poll_wholly_below_the_earliest_retained_offset() {
+    let dir = TempDir::new().unwrap();
+    // small segments: every save of 10 messages closes the segment
+    let config = config(&dir, 10, 300);
+    let mut p = new_partition(config.clone(), true).await;
+    p.persist().await.unwrap();
+    for k in 0..3u128 {
+        send(&mut p, k * 10, 10).await;
+    }
+    let starts: Vec<u64> = p.get_segments().iter().map(|s| s.start_offset).collect();
+    eprintln!("segments start at {starts:?}, current offset {}", p.current_offset);
+    assert!(starts.len() >= 3);
+    p.delete_segment(starts[0]).await.unwrap();
+    let first_retained = p.get_segments()[0].start_offset;
+    let a = offsets(&p.get_first_messages(5).await.unwrap());
+    let b = offsets(&p.get_messages_by_offset(0, 5).await.unwrap());
+    let c = offsets(&p.get_messages_by_offset(0, (first_retained + 3) as u32).await.unwrap());
+    eprintln!("first retained {first_retained}; first(5) = {a:?}; poll(0,5) = {b:?}; poll(0,{}) = {c:?}", first_retained + 3);
+    assert_eq!(a.first().copied(), Some(first_retained), "first(5) must start from the earliest message still available");
+    assert_eq!(b.first().copied(), Some(first_retained), "poll(0,5) must start from the earliest message still available");
+}
